@@ -275,8 +275,11 @@ func (s *PfcpServer) sendReqTo(msg message.Message, addr net.Addr) error {
 		return errors.Errorf("sendReqTo: invalid req type(%d)", msg.MessageType())
 	}
 
-	txtr := NewTxTransaction(s, addr, s.txSeq)
-	s.txSeq++
+	// PFCP sequence numbers are 24 bits wide: the transaction must be keyed by
+	// the value that goes on the wire, or no response can ever match it.
+	seq := s.txSeq & 0xffffff
+	txtr := NewTxTransaction(s, addr, seq)
+	s.txSeq = (seq + 1) & 0xffffff
 	s.txTrans[txtr.id] = txtr
 
 	return txtr.send(msg)
